@@ -25,44 +25,50 @@ Qed.
 Lemma firstn_nil_any {A} k : firstn k (@nil A) = [].
 Proof. destruct k; reflexivity. Qed.
 
-(* the states the four operations of the fixed sync() lead through, seen from the vector file *)
-Section Sync.
+(* The atomic-replace protocol (temporary sibling file, fsync, rename) used by MmapVec::sync,
+   PlainBlobStore::put and SuffixArrayDictionary::save_to_file: seen from any file other than the temporary
+   one, every crash image equals the old disk, except that `path` may already hold the complete new content. *)
+Section Replace.
   Variables (d : disk) (path tmp : N) (img : list N).
   Hypothesis Hne : tmp <> path.
   Let ops := mv_sync_ops path tmp img.
 
-  Lemma Hne' : path <> tmp. Proof. intro H; apply Hne; symmetry; exact H. Qed.
-
-  Lemma s1_path : apply d (FOpen tmp true true) path = d path.
-  Proof. cbn [apply]. destruct (d tmp); apply dset_other; exact Hne'. Qed.
+  Lemma s1_other q : q <> tmp -> apply d (FOpen tmp true true) q = d q.
+  Proof. intros H. cbn [apply]. destruct (d tmp); apply dset_other; exact H. Qed.
   Lemma s1_tmp : apply d (FOpen tmp true true) tmp = Some [].
   Proof. cbn [apply]. destruct (d tmp); apply dset_same. Qed.
 
-  Lemma prefix_path k :
-    apply_all d (firstn k ops) path = d path \/ apply_all d (firstn k ops) path = Some img.
+  Definition view_ok (d' : disk) : Prop :=
+    forall q, q <> tmp -> d' q = d q \/ (q = path /\ d' q = Some img).
+
+  Lemma prefix_view k : view_ok (apply_all d (firstn k ops)).
   Proof.
-    unfold ops, mv_sync_ops.
+    unfold ops, mv_sync_ops, view_ok. intros q Hq.
     destruct k as [|[|[|[|k]]]]; cbn [firstn apply_all fold_left].
     - left; reflexivity.
-    - left. apply s1_path.
-    - left. cbn [apply]. rewrite dset_other by exact Hne'. apply s1_path.
-    - left. cbn [apply]. rewrite dset_other by exact Hne'. apply s1_path.
-    - right. rewrite firstn_nil_any. cbn [fold_left].
+    - left. apply s1_other; exact Hq.
+    - left. cbn [apply]. rewrite dset_other by exact Hq. apply s1_other; exact Hq.
+    - left. cbn [apply]. rewrite dset_other by exact Hq. apply s1_other; exact Hq.
+    - rewrite firstn_nil_any. cbn [fold_left].
       set (s1 := apply d (FOpen tmp true true)).
-      cbn [apply]. rewrite dset_same. rewrite dset_same.
-      unfold s1. rewrite s1_tmp. change (N.to_nat 0) with 0%nat. rewrite write_at_empty. reflexivity.
+      cbn [apply]. rewrite dset_same.
+      destruct (N.eq_dec q path) as [->|Hqp].
+      + right. split; [reflexivity|]. rewrite dset_same.
+        unfold s1. rewrite s1_tmp. change (N.to_nat 0) with 0%nat. rewrite write_at_empty. reflexivity.
+      + left. rewrite dset_other by exact Hqp. rewrite dset_other by exact Hq.
+        rewrite dset_other by exact Hq. apply s1_other; exact Hq.
   Qed.
 
-  Lemma mv_sync_atomic_core d' : crash d ops d' -> d' path = d path \/ d' path = Some img.
+  Lemma replace_atomic_core d' : crash d ops d' -> view_ok d'.
   Proof.
-    intros H. inversion H as [k|k o o' Hn Ht|j k o p Hjk Hn Hd Hp|j k p off data s e Hjk Hn Hp Hs He q dk]; subst.
-    - apply prefix_path.
+    intros H. inversion H as [k|k o o' Hn Ht|j k o p Hjk Hn Hd Hp|j k p off data s e Hjk Hn Hp Hs He q0 dk]; subst.
+    - apply prefix_view.
     - (* torn: only the write of the temporary file can be torn *)
       unfold ops, mv_sync_ops in Hn.
       destruct k as [|[|[|[|k]]]]; cbn [nth_error] in Hn; [| | | |destruct k; discriminate Hn];
         injection Hn as <-; cbn [torn] in Ht; try contradiction.
-      destruct Ht as (c & ->). left.
-      cbn [firstn apply_all fold_left]. cbn [apply]. rewrite dset_other by exact Hne'. apply s1_path.
+      destruct Ht as (c & ->). intros q Hq. left.
+      cbn [firstn apply_all fold_left]. cbn [apply]. rewrite dset_other by exact Hq. apply s1_other; exact Hq.
     - (* an unsynced write dropped: only the temporary file's write, and only before its fsync *)
       unfold ops, mv_sync_ops in Hn.
       destruct j as [|[|[|[|j]]]]; cbn [nth_error] in Hn; [| | | |destruct j; discriminate Hn];
@@ -70,7 +76,7 @@ Section Sync.
       injection Hd as <-.
       unfold ops, mv_sync_ops in *. cbn [skipn] in *.
       destruct k as [|[|[|k]]]; try lia.
-      + cbn [Nat.sub firstn apply_all fold_left]. left. apply s1_path.
+      + cbn [Nat.sub firstn apply_all fold_left]. intros q Hq. left. apply s1_other; exact Hq.
       + exfalso. cbn [Nat.sub firstn pinned] in Hp. rewrite N.eqb_refl in Hp. discriminate.
     - (* block rollback: same window *)
       unfold ops, mv_sync_ops in Hn.
@@ -78,12 +84,27 @@ Section Sync.
       injection Hn as <- <- <-.
       unfold ops, mv_sync_ops in *. cbn [skipn] in *.
       destruct k as [|[|[|k]]]; try lia.
-      + subst q dk. cbn [Nat.sub firstn name_after]. left.
-        rewrite dset_other by exact Hne'.
-        cbn [firstn apply_all fold_left]. cbn [apply]. rewrite dset_other by exact Hne'. apply s1_path.
+      + subst q0 dk. cbn [Nat.sub firstn name_after]. intros q Hq. left.
+        rewrite dset_other by exact Hq.
+        cbn [firstn apply_all fold_left]. cbn [apply]. rewrite dset_other by exact Hq. apply s1_other; exact Hq.
       + exfalso. cbn [Nat.sub firstn pinned] in Hp. rewrite N.eqb_refl in Hp. discriminate.
   Qed.
-End Sync.
+
+  Lemma mv_sync_atomic_core d' : crash d ops d' -> d' path = d path \/ d' path = Some img.
+  Proof.
+    intros H. destruct (replace_atomic_core d' H path) as [E|(_ & E)].
+    - intro E; apply Hne; symmetry; exact E.
+    - left; exact E.
+    - right; exact E.
+  Qed.
+End Replace.
+
+(* T: a crash during PlainBlobStore::put / SuffixArrayDictionary::save_to_file / MmapVec::sync leaves every file
+   other than the temporary one as it was, except that the target may hold the complete new content *)
+Lemma replace_crash_safe_proof d path tmp img d' :
+  tmp <> path -> crash d (mv_sync_ops path tmp img) d' ->
+  forall q, q <> tmp -> d' q = d q \/ (q = path /\ d' q = Some img).
+Proof. intros Hne Hc. eapply replace_atomic_core; eassumption. Qed.
 
 (* T: whatever crash image the fixed sync() leaves, the vector file holds the previously synced image
    or the complete new one, so reopening shows the earlier content or the new content *)
